@@ -72,8 +72,18 @@ def _case(draw):
     return d
 
 
+@st.composite
+def _export_case(draw):
+    d = draw(_case())
+    d["kind"] = "export"
+    # API users give numbers as well as expression strings
+    if d["rate_mod"] or draw(st.booleans()):
+        d["rate_mod"] = {draw(st.sampled_from(["1", "2"])): draw(st.sampled_from([0.0, 0.0, 1.0e-10, "0.0", "1.0e-9 * nH"]))}
+    return d
+
+
 def strategy(tier):
-    return _case()
+    return st.one_of(_case(), _case(), _export_case())
 
 
 EXAMPLES = ["empty/dense", "empty/sparse", "empty/cusparse", "empty/rosenbrock4", "minimal/dense", "minimal/sparse", "minimal/cusparse", "minimal/rosenbrock4",
@@ -383,12 +393,103 @@ def run_api(payload):
         shutil.rmtree(root, ignore_errors=True)
 
 
+def run_export(payload):
+    """Fresh process: Network(...) through the API, then Network.export(); returns the written configuration."""
+    from naunet.species import Species
+    from naunet.network import Network
+    from naunet.chemistrydata import update_binding_energy, update_photon_yield
+
+    d = payload["desc"]
+    root = tempfile.mkdtemp(prefix="vt-")
+    cwd = os.getcwd()
+    try:
+        os.chdir(root)
+        fname = f"network.{d['fmt']}"
+        Path(fname).write_text(d["text"])
+        Species._replacement = dict(d["replacement"])
+        Species.set_known_elements(list(d["elements"]))
+        Species.set_known_pseudoelements(list(d["pseudo"]))
+        sk = {"grain_symbol": d["grain_symbol"], "surface_prefix": d["surface"], "bulk_prefix": d["bulk"]}
+        update_binding_energy({Species(k, **sk).name: v for k, v in d["binding"].items()})
+        update_photon_yield({Species(k, **sk).name: v for k, v in d["yields"].items()})
+        om = {}
+        for t, f, deps in d["ode_mod_terms"]:
+            ent = om.setdefault(t, {"factors": [], "reactants": []})
+            ent["factors"].append(f)
+            ent["reactants"].append(list(deps))
+        net = Network(
+            filelist=[fname], fileformats=[d["fmt"]], elements=list(d["elements"]), pseudo_elements=list(d["pseudo"]),
+            allowed_species=list(d["allowed"]), required_species=list(d["required"]), species_kwargs=sk, grain_model=d["grain_model"],
+            heating=[], cooling=list(d["cooling"]), shielding=dict(d["shielding"]),
+            rate_modifier={int(k): v for k, v in d["rate_mod"].items()}, ode_modifier=om,
+        )
+        s, m, dv = d["backend"]
+        try:
+            net.export("vtexp", solver=s, method=m, device=dv, prefix=root, overwrite=True)
+        except Exception as e:
+            import traceback
+
+            tb = traceback.extract_tb(e.__traceback__)
+            where = next((f"{fr.filename.split('/')[-1]}:{fr.name}" for fr in reversed(tb) if "/naunet/" in fr.filename), "?")
+            return {"raised": f"{type(e).__name__}@{where}: {str(e)[:200]}"}
+        return {"config": (Path(root) / "vtexp" / "naunet_config.toml").read_text()}
+    finally:
+        os.chdir(cwd)
+        shutil.rmtree(root, ignore_errors=True)
+
+
+def check_export(d):
+    import tomlkit
+    from ..proc.call import call
+
+    failures = []
+    labels = ["export-route", f"fmt-{d['fmt']}"]
+    api = call("vtlib.checks.c20", "run_api", {"desc": d})
+    if "raised" in api:
+        return CaseResult(discarded=True)
+    res = call("vtlib.checks.c20", "run_export", {"desc": d})
+    if "raised" in res:
+        failures.append((f"export/raises/{res['raised'].split(':')[0]}", res["raised"]))
+        return CaseResult(failures, True, labels, sample={"rate_mod": d["rate_mod"]})
+    cfg = tomlkit.parse(res["config"])
+    ch = cfg["chemistry"]
+    om = {}
+    for t, f, deps in d["ode_mod_terms"]:
+        ent = om.setdefault(t, {"factors": [], "reactants": []})
+        ent["factors"].append(f)
+        ent["reactants"].append(list(deps))
+    want = {
+        "symbol.surface": d["surface"], "symbol.bulk": d["bulk"], "element.elements": list(d["elements"]), "element.pseudo_elements": list(d["pseudo"]),
+        "species.allowed": list(d["allowed"]), "species.required": list(d["required"]), "grain.model": d["grain_model"], "thermal.cooling": list(d["cooling"]),
+        "shielding": dict(d["shielding"]), "rate_modifier": {str(k): str(v) for k, v in d["rate_mod"].items()}, "ode_modifier": om,
+        "solver": [d["backend"][0], d["backend"][2], d["backend"][1]],
+    }
+    got = {
+        "symbol.surface": str(ch["symbol"]["surface"]), "symbol.bulk": str(ch["symbol"]["bulk"]), "element.elements": [str(x) for x in ch["element"]["elements"]],
+        "element.pseudo_elements": [str(x) for x in ch["element"]["pseudo_elements"]], "species.allowed": [str(x) for x in ch["species"]["allowed"]],
+        "species.required": [str(x) for x in ch["species"]["required"]], "grain.model": str(ch["grain"]["model"]), "thermal.cooling": [str(x) for x in ch["thermal"]["cooling"]],
+        "shielding": {str(k): str(v) for k, v in ch["shielding"].items()}, "rate_modifier": {str(k): str(v) for k, v in ch["rate_modifier"].items()},
+        "ode_modifier": {str(k): {"factors": [str(x) for x in v["factors"]], "reactants": [[str(y) for y in x] for x in v["reactants"]]} for k, v in ch["ode_modifier"].items()},
+        "solver": [str(cfg["ODEsolver"]["solver"]), str(cfg["ODEsolver"]["device"]), str(cfg["ODEsolver"]["method"])],
+    }
+    for key, w in want.items():
+        if got[key] != w:
+            failures.append((f"export/field/{key}", f"exported naunet_config.toml: {key} = {got[key]!r} but the network was built with {w!r}"))
+    # user-given binding energies / yields must be in the exported tables (the export lists every ice species)
+    for k, v in d["binding"].items():
+        if float(ch["species"]["binding_energy"].get(k, float("nan"))) != float(v):
+            failures.append(("export/field/species.binding_energy", f"binding energy of {k}: exported {ch['species']['binding_energy'].get(k)} but configured {v}"))
+    return CaseResult(failures, bool(d["rate_mod"] or d["ode_mod_terms"] or d["binding"]), labels, sample={"rate_mod": d["rate_mod"], "ode_mod": d["ode_mod_terms"]})
+
+
 def check_case(case, tier):
     import tomlkit
     from ..proc.call import call
 
     if case.get("kind") == "example":
         return check_example(case)
+    if case.get("kind") == "export":
+        return check_export(case)
     d = case
     failures = []
     labels = [f"fmt-{d['fmt']}", f"method-{d['backend'][1]}"]
